@@ -377,6 +377,7 @@ def check_plan(ctx, plan):
         marks.append((si, len(ops), pre))
         ops.append(call("cpp", "s1", "RunString", txt))
         ops.append(call("cpp", "s1", "GetErrorString"))
+        ops.append(call("cpp", "s1", "GetWarningString"))
         if f and f["kind"] == "buggify":
             ops.append(["buggify", "read"])
             ops.append(["buggify", "0", "1", "0", "1"])
@@ -394,11 +395,14 @@ def check_plan(ctx, plan):
     for si, idx, pre in marks:
         st = plan["steps"][si]
         ret, err = R[idx].f[0], R[idx + 1].f[0]
-        off = 2
+        warn = R[idx + 2].f[0]
+        off = 3
         fired = 0
         if f and f["kind"] == "buggify":
-            fired = int(R[idx + 2].f[0]) if R[idx + 2].f and R[idx + 2].f[0].lstrip("-").isdigit() else 0
-            off = 4
+            fired = int(R[idx + 3].f[0]) if R[idx + 3].f and R[idx + 3].f[0].lstrip("-").isdigit() else 0
+            off = 5
+        # the last-but-three rung of the retry ladder ("negative concentrations" inequality) is identified in the key: see KF55
+        rung11 = "Adding inequality to make concentrations greater than zero" in warn
         after = R[idx + off + 1].f[0]
         what = "step %d (%s)%s" % (si, describe(st), (" under %s" % json.dumps(f)) if f else "")
         if f and f["kind"] == "knobs":
@@ -406,7 +410,7 @@ def check_plan(ctx, plan):
         if fired:
             rep.count("buggify_fired", fired)
             rep.count("retry_ladder_entered")
-        if "Numerical method failed" in R[idx + 1].f[0] or "retrying" in err:
+        if "Numerical method failed" in warn or "retrying" in err or "retrying" in warn:
             rep.count("retry_ladder_entered")
         if ret != "0":
             rep.count("steps_with_errors")
@@ -507,7 +511,7 @@ def check_plan(ctx, plan):
                 kind = "charge" if el == "charge" else "element"
                 if abs(x - y) < 1e-9 and scale < (1e-4 if el == "charge" else 1e-5):
                     kind += "_trace"      # below ~1e-5 mol the solver's accuracy is absolute (~1e-10 mol), not relative: listed as a known finding
-                rep.viol("ledger", "C02:not_conserved:" + kind, "%s: %s before + added = %r, after = %r (difference %.3e, relative %.2e); system %r" % (what, el, x, y, y - x, abs(x - y) / scale, [key for _, key in src]))
+                rep.viol("ledger", "C02:not_conserved:" + kind + ("|rung11" if rung11 and not kind.endswith("_trace") else ""), "%s: %s before + added = %r, after = %r (difference %.3e, relative %.2e); system %r" % (what, el, x, y, y - x, abs(x - y) / scale, [key for _, key in src]))
                 break
         if rep.violations:
             break
